@@ -10,6 +10,8 @@ import Resvg.Lemmas.Basic
 import Resvg.Props.C16.H1
 import Resvg.Props.C16.H2
 import Resvg.Props.C16.H3
+import Resvg.Render.ColorSpace
+import Resvg.Generated.PaintedColours
 
 namespace Resvg.Props.C16
 open Resvg.Pixel Resvg.F32 Resvg.Lemmas
@@ -275,5 +277,73 @@ theorem C16_lighting_valid (specular : Bool) (r g b : Nat) (hr : r ≤ 255) (hg 
     valid: blue > green > red leaves blue above alpha -/
 example : ¬ ({ r := 16, g := 76, b := 135, a := (if (16 : Nat) ≥ 76 then max 16 135 else 76) } : Px).valid := by
   unfold Px.valid; decide
+
+/-! ### colour-space bookkeeping: a painted colour is shown as it was asked for
+
+`feFlood` and the shadow of `feDropShadow` paint a colour given in sRGB.  The data of an intermediate image is
+right when its tag tells the truth (`Tagged.consistent`); conversions between primitives keep that, and the
+final conversion to sRGB then undoes exactly what was done.  `Generated.paintedColourSites` is read off
+`filter/mod.rs` by the translator (tag of the result, when the colour is converted). -/
+
+open Resvg.Render in
+/-- `into_color_space` keeps the tag truthful -/
+theorem C16_into_space_consistent (t : Tagged) (cs : CSpace) (h : t.consistent) : (intoSpace t cs).consistent := by
+  unfold Tagged.consistent at *
+  unfold intoSpace
+  cases cs <;> cases ht : t.tag <;> simp_all
+
+open Resvg.Render in
+/-- a truthful image ends up as sRGB data: no conversion is left over -/
+theorem C16_finish_exact (t : Tagged) (h : t.consistent) : (finish t).conversions = 0 ∧ (finish t).tag = .srgb := by
+  unfold Tagged.consistent at h
+  unfold finish intoSpace
+  cases ht : t.tag <;> simp_all
+
+open Resvg.Render in
+/-- … also after any chain of primitives that work in other colour spaces -/
+theorem C16_chain_exact (t : Tagged) (spaces : List CSpace) (h : t.consistent) :
+    (finish (spaces.foldl intoSpace t)).conversions = 0 := by
+  have : (spaces.foldl intoSpace t).consistent := by
+    induction spaces generalizing t with
+    | nil => simpa
+    | cons c cs ih => exact ih _ (C16_into_space_consistent t c h)
+  exact (C16_finish_exact _ this).1
+
+open Resvg.Render in
+/-- **Current sources**: every primitive that paints a colour tags its result truthfully, in either working
+    space — so the colour shown is the colour asked for (`flood-color` of feFlood and feDropShadow). -/
+theorem C16_painted_colours_exact (cs : CSpace) (spaces : List CSpace) :
+    ∀ e ∈ Generated.paintedColourSites,
+      (paintedColour e.2.1 e.2.2 cs).consistent ∧
+      (finish (spaces.foldl intoSpace (paintedColour e.2.1 e.2.2 cs))).conversions = 0 := by
+  intro e he
+  have hc : (paintedColour e.2.1 e.2.2 cs).consistent := by
+    simp [Generated.paintedColourSites] at he
+    rcases he with rfl | rfl <;> cases cs <;> decide
+  exact ⟨hc, C16_chain_exact _ _ hc⟩
+
+open Resvg.Render in
+/-- the shadow before fix 2b20ed9 (converted always, tagged with the working space) was shown one conversion
+    off in sRGB filters — and right in linearRGB ones, which is why the pinned images never showed it -/
+theorem C16_old_drop_shadow_srgb_converted :
+    (finish (paintedColour "cs" "always" .srgb)).conversions = 1 ∧
+    (finish (paintedColour "cs" "always" .linear)).conversions = 0 := by
+  constructor <;> decide
+
+open Resvg.Render in
+/-- **Current sources**: the primitives that copy pixels unchanged hand the tag of their input on, so the
+    bookkeeping stays truthful through them -/
+theorem C16_pass_through_consistent (input : Tagged) (h : input.consistent) :
+    ∀ e ∈ Generated.passThroughSites, (passThrough e.2 input).consistent := by
+  intro e he
+  simp [Generated.passThroughSites] at he
+  rcases he with rfl | rfl <;> simpa [passThrough, Tagged.consistent] using h
+
+open Resvg.Render in
+/-- feTile before fix 2c01963 tagged its result sRGB whatever it copied: after a linearRGB primitive the
+    linear data was never converted back -/
+theorem C16_old_tile_after_linear :
+    ¬ (passThrough "srgb" ⟨.linear, 1⟩).consistent ∧ (finish (passThrough "srgb" ⟨.linear, 1⟩)).conversions = 1 := by
+  constructor <;> decide
 
 end Resvg.Props.C16
